@@ -770,6 +770,17 @@ class Executor:
                 obj.items[k[0]].items[k[1]] = v
                 self._mutated(obj, 'setitem')
                 return
+            if isinstance(k, tuple) and len(k) == 2 and isinstance(k[0], int) and isinstance(k[1], slice) and isinstance(obj.items[k[0]], VList):
+                return self.setitem(obj.items[k[0]], k[1], v)
+            if is_sym(k) and is_scalar(exact(v)) and all(is_scalar(exact(i)) for i in obj.items):
+                kz = to_z3(k)
+                if not z3.is_int(kz):
+                    kz = z3.ToInt(kz)
+                n_ = len(obj.items)
+                self.ctx.pc.append(z3.And(kz >= -n_, kz < n_))
+                obj.items[:] = [z3.If(z3.Or(kz == i, kz == i - n_), to_real(exact(v)), to_real(exact(x))) for i, x in enumerate(obj.items)]
+                self._mutated(obj, 'setitem')
+                return
             if isinstance(k, (VList, list)) and all(isinstance(i, int) and not isinstance(i, bool) for i in (k.items if isinstance(k, VList) else k)):
                 idx = k.items if isinstance(k, VList) else k
                 vals = [v] * len(idx) if is_scalar(exact(v)) else self.iterate(v)
@@ -1365,8 +1376,17 @@ class Executor:
         raise Unsupported('subscript of %s' % vrepr(obj))
 
     def _sym_index(self, items, k):
-        """items[k] with symbolic integer k: case split via the path explorer."""
+        """items[k] with symbolic integer k: an ite chain when every item is a scalar, else a case split via the path explorer."""
         n = len(items)
+        if n and all(is_scalar(exact(i)) and not isinstance(exact(i), bool) for i in items):
+            kz = to_z3(k)
+            if not z3.is_int(kz):
+                kz = z3.ToInt(kz)
+            self.ctx.pc.append(z3.And(kz >= -n, kz < n))      # an out-of-range index would raise IndexError: excluded here, reported by the caller's contract
+            r = to_real(exact(items[0]))
+            for i in range(1, n):
+                r = z3.If(z3.Or(kz == i, kz == i - n), to_real(exact(items[i])), r)
+            return r
         for i in range(n):
             if self.ctx.decide(to_z3(k) == i):
                 return items[i]
@@ -1416,7 +1436,7 @@ class Executor:
         if mi is not None:
             return self.module_global(mi, name)
         # sub-module e.g. numpy.random / scipy.special
-        if mref.name.split('.')[0] in ('numpy', 'scipy', 'np', 'os', 'math', 'sys', 'nlopt', 'demes', 'functools', 'operator', 'logging'):
+        if mref.name.split('.')[0] in ('numpy', 'scipy', 'np', 'os', 'math', 'sys', 'nlopt', 'demes', 'functools', 'operator', 'logging', 'itertools'):
             lib = self.lib_attr(mref.name, name)
             if lib is not None:
                 return lib
@@ -1506,6 +1526,8 @@ class Executor:
                 return PyFn(lambda x: self.np_any(x), 'numpy.any')
             if name == 'all':
                 return PyFn(lambda x: self.np_all(x), 'numpy.all')
+            if name == 'zeros_like':
+                return PyFn(lambda x, **k: VList([0] * len(self.iterate(x)), 'ndarray'), 'numpy.zeros_like')
             if name == 'diff':
                 def diff(x, *a, **k):
                     if isinstance(x, VList) and not a and not k and all(is_scalar(exact(i)) for i in x.items):
@@ -1559,6 +1581,25 @@ class Executor:
                     return uf(_n, _ar)(*[to_real(exact(x)) for x in a])
                 return Tm('call:scipy.special.' + _n, *a)
             return PyFn(special, 'scipy.special.' + name)
+        if modname in ('scipy.special',) and name == 'comb':
+            def comb(n, k, **kw):
+                n, k = exact(n), exact(k)
+                if isinstance(n, (int, Fraction)) and isinstance(k, (int, Fraction)) and int(n) == n and int(k) == k:
+                    import math as _m
+                    return _m.comb(int(n), int(k)) if 0 <= k <= n else 0     # scipy.special.comb is 0 outside 0<=k<=n
+                return uf('comb', 2)(to_real(n), to_real(k))
+            return PyFn(comb, 'scipy.special.comb')
+        if root == 'math' and name in ('ceil', 'floor'):
+            def rnd(x, _n=name):
+                x = exact(x)
+                if isinstance(x, (int, Fraction)):
+                    import math as _m
+                    return getattr(_m, _n)(x)
+                raise Unsupported('math.%s of a symbolic value' % _n)
+            return PyFn(rnd, 'math.' + name)
+        if root == 'itertools' and name == 'combinations':
+            import itertools as _it
+            return PyFn(lambda seq, r: VList([tuple(c) for c in _it.combinations(self.iterate(seq), int(r))]), 'itertools.combinations')
         if root == 'functools' and name == 'partial':
             def partial(f, *a, **k):
                 return PyFn(lambda ex, *a2, **k2: ex.call(f, list(a) + list(a2), dict(k, **k2)), 'partial', wants_ex=True)
@@ -1806,7 +1847,24 @@ class Executor:
 
         def _round(x, n=None):
             return Tm('call:round', x, n)
-        b = dict(len=_len, range=_range, abs=_abs, min=_min, max=_max, sum=_sum, list=_list, tuple=_tuple,
+        def _set(x=()):
+            """set(iterable) of numbers / tuples of numbers: an element is dropped when it equals an earlier one (decided per path);
+            iteration order is modelled as first-occurrence order (CPython's order is unspecified: only order-insensitive uses are sound)."""
+            kept = []
+            for v in ex.iterate(x):
+                tv = tuple(ex.iterate(v)) if isinstance(v, (tuple, list, VList)) else (v,)
+                if not all(is_scalar(exact(c)) for c in tv):
+                    raise Unsupported('set() of non-numeric elements')
+                dup = []
+                for w in kept:
+                    tw = tuple(ex.iterate(w)) if isinstance(w, (tuple, list, VList)) else (w,)
+                    if len(tw) == len(tv):
+                        dup.append(z3.And([to_real(exact(a)) == to_real(exact(c)) for a, c in zip(tw, tv)]) if tv else z3.BoolVal(True))
+                if dup and ex.ctx.decide(z3.Or(dup)):
+                    continue
+                kept.append(v)
+            return VList(kept, 'set')
+        b = dict(set=_set, len=_len, range=_range, abs=_abs, min=_min, max=_max, sum=_sum, list=_list, tuple=_tuple,
                  dict=_dict, zip=_zip, enumerate=_enumerate, float=_float, int=_int, bool=_bool,
                  isinstance=_isinstance, hasattr=_hasattr, getattr=_getattr, print=_print, sorted=_sorted,
                  reversed=_reversed, str=_str, map=_map, callable=_callable, any=_any, all=_all, round=_round)
